@@ -237,6 +237,40 @@ Theorem C16_result_dict :
 Proof. exact matched_values_spec. Qed.
 Print Assumptions C16_result_dict.
 
+(* ... and EXACTLY so when the reported paths are tame (then no two reported locations share a
+   text): the observable dictionary matched_values is the set of (path text, value) of the
+   specification's locations - for all objects (instances and named tuples included: an attribute
+   step is not tame), items, modes ... *)
+Theorem C16_result_dict_exact_partial :
+  forall (slower brepr : pystr -> pystr) (re_search excl_re : pystr -> bool) (re_text : pystr)
+         (sa ba : list pystr) (c : config) (item : value) (obj : xvalue) (cs : bool)
+         (it : eitem) (evs : list event),
+    xwf obj = true ->
+    prepare slower brepr c item = PItem cs it ->
+    deep_search slower brepr re_search excl_re re_text sa ba c item obj = ROk evs ->
+    (forall q v, In (EvValue q v) evs -> tame_path q = true) ->
+    forall (t : pystr) (v : xvalue),
+      In (t, v) (matched_values brepr evs) <->
+      exists q : path, render brepr q = t /\ In (q, v) (matches_spec slower brepr re_search excl_re c cs it obj).
+Proof. exact result_dict_exact_partial. Qed.
+Print Assumptions C16_result_dict_exact_partial.
+
+(* ... the guard is satisfiable ... *)
+Theorem C16_result_dict_guard_satisfiable :
+  forall q v, In (EvValue q v) guard_evs -> tame_path q = true.
+Proof. exact result_dict_guard_satisfiable. Qed.
+Print Assumptions C16_result_dict_guard_satisfiable.
+
+(* ... and needed (K16g): the keys "a']['b" and "a" -> "b" give two locations with ONE text, the
+   dictionary keeps one of the two reported values *)
+Theorem C16_result_dict_refuted :
+  exists (evs : list event) (q : path) (v : xvalue),
+    wf amb_val = true /\
+    deep_search lower id_repr no_re no_re [] [] [] k16f_cfg k16g_item (inj amb_val) = ROk evs /\
+    In (EvValue q v) evs /\ ~ In (render id_repr q, v) (matched_values id_repr evs).
+Proof. exact result_dict_refuted. Qed.
+Print Assumptions C16_result_dict_refuted.
+
 (* ---- class instances, named tuples, `unprocessed` ---- *)
 
 (* the `unprocessed` events are EXACTLY the objects whose attributes cannot be read that the search
